@@ -810,7 +810,12 @@ func newTickerModel(in *Interp, fn *ssa.Function, args []Value) Value {
 func init() {
 	libModels["time.NewTicker"] = newTickerModel
 	libModels["time.NewTimer"] = newTickerModel
-	libModels["time.AfterFunc"] = newTickerModel
+	// the timer never fires on its own; its callback is recorded like a go
+	// statement so that a harness can fire it with verifRunGo("time.AfterFunc")
+	libModels["time.AfterFunc"] = func(in *Interp, fn *ssa.Function, args []Value) Value {
+		in.events = append(in.events, Event{Kind: "go", Name: "time.AfterFunc", Args: nil, fn: args[1]})
+		return newTickerModel(in, fn, args)
+	}
 	libModels["time.After"] = func(in *Interp, fn *ssa.Function, args []Value) Value {
 		in.objN++
 		return ChanRef{c: &ChanObj{id: in.objN, cap: 1, et: fn.Signature.Results().At(0).Type().Underlying().(*types.Chan).Elem()}}
@@ -998,6 +1003,22 @@ func init() {
 		return strLit(fmt.Sprintf(f, gv...))
 	}
 	libModels["fmt.Sprintf"] = sprintf
+	// fmt.Sprint(a...) with concrete scalar arguments: rendered natively
+	libModels["fmt.Sprint"] = func(in *Interp, fn *ssa.Function, args []Value) Value {
+		var gv []interface{}
+		for _, a := range in.variadic(args[0]) {
+			iv, isI := a.(Iface)
+			if !isI {
+				return strLit("?fmt.Sprint")
+			}
+			g, ok := in.goValue(iv, nil)
+			if !ok {
+				return strLit("?fmt.Sprint")
+			}
+			gv = append(gv, g)
+		}
+		return strLit(fmt.Sprint(gv...))
+	}
 }
 
 func init() {
